@@ -105,12 +105,24 @@ static void do_yield(vh_tctx *c)
 
 static void vh_do_op(vh_tctx *c, const char *tok)
 {
-    int b = (tok[0] == 'W' || tok[0] == 'R' || tok[0] == 'X') ? atoi(tok + 1) : 0;
+    int b = (tok[0] == 'W' || tok[0] == 'L' || tok[0] == 'R' || tok[0] == 'X') ? atoi(tok + 1) : 0;
     int ret;
     switch (tok[0]) {
+        case 'L':   /* as W, but the caller makes sure it is the last arrival of its round: it enters only when the
+                     * n-1 other callers are counted (they are queued then); when its wait returns the round is
+                     * complete and its critical section is over, so that it may reinitialise the barrier at once */
         case 'W': {
             if (b >= g_nb)
                 VH_DIE("no barrier %d", b);
+            if (tok[0] == 'L' && c->kind != 'T') {
+                ABTI_barrier *pb = ABTI_barrier_get_ptr(g_b[b]);
+                while (*(volatile size_t *)&pb->counter != (size_t)(g_curn[b] - 1)) {
+                    if (c->kind == 'U')
+                        ABT_thread_yield();
+                    else
+                        sched_yield();
+                }
+            }
             int kindc = c->kind == 'U' ? 1 : c->kind == 'T' ? 2 : 0;
             if (c->kind == 'T') {
                 /* 1.x API: a tasklet gets ABT_ERR_BARRIER and the barrier is not touched */
